@@ -77,13 +77,26 @@ class Violation(Exception):
 class Runner(object):
     """executes one history on a real BlockChain, checking the invariants after every event"""
 
-    def __init__(self, parents, weights, mkid=lambda x: x):
+    def __init__(self, parents, weights, mkid=lambda x: x, preload=0):
+        self.preload = preload
         from pycoin.blockchain.BlockChain import BlockChain
         self.BlockChain = BlockChain
         self.n = len(parents)
         self.mkid = mkid
         self.hdr = {l: H(mkid(l), mkid(parents[l - 1]), weights[l - 1]) for l in range(1, self.n + 1)}
-        self.back = {mkid(l): l for l in list(range(0, self.n + 1)) + list(MISSING)}
+        self.back = {mkid(l): l for l in list(range(0, self.n + 1)) + list(MISSING) + [77]}
+
+    def decoy(self):
+        """another BlockChain in the same process sees the SAME header ids under a different anchor, delivered one at a time
+        as a line (every delivery extends the tip), in two orders: whatever module- or class-level state that leaves behind
+        must not influence the chains under test.  Run once per work unit and once per replayed case."""
+        for order in (range(1, self.n + 1), range(self.n, 0, -1)):
+            dec = self.BlockChain(parent_hash=self.mkid(77), unlocked_block_storage={})
+            prev = 77
+            for l in order:
+                dec.add_headers([H(self.mkid(l), self.mkid(prev), 1)])
+                prev = l
+        return self
 
     def start(self):
         self.cb_ops = []
@@ -94,6 +107,13 @@ class Runner(object):
         self.locked = []
         self.mirror = []
         self.flags = set()
+        if self.preload:
+            # a locked prefix restored through preload_locked_blocks (headers 1..k form a line from the anchor)
+            pre = list(range(1, self.preload + 1))
+            self.bc.preload_locked_blocks([self.hdr[l] for l in pre])
+            self.locked = list(pre)
+            self.mirror = list(pre)
+            self.flags.add("preload")
 
     def reported(self):
         bc = self.bc
@@ -106,8 +126,10 @@ class Runner(object):
             ncb = len(self.cb_ops)
             ops = bc.add_headers(hs)
             for l in ev[1]:
-                if l in self.delivered:
+                if l in self.delivered or l <= self.preload:
                     self.flags.add("redelivery")
+                if l <= self.preload:
+                    continue            # already part of the locked chain: nothing to track
                 par = self.hdr[l].previous_block_hash
                 self.delivered[l] = (self.back[par], self.hdr[l].difficulty)
             for l in ev[1]:
@@ -167,10 +189,10 @@ class Runner(object):
         prev = ANCHOR
         for i, l in enumerate(chain):
             t = bc.tuple_for_index(i)
-            exp = (self.mkid(l), self.mkid(prev), self.delivered[l][1])
+            exp = (self.mkid(l), self.mkid(prev), self.hdr[l].difficulty)
             if tuple(t) != exp:
                 raise Violation("tuple", "tuple_for_index(%d)=%r" % (i, exp), repr(t))
-            if self.delivered[l][0] != prev:
+            if self.back[self.hdr[l].previous_block_hash] != prev:
                 raise Violation("links", "parent links consistent", "chain %r" % (chain,))
             if bc.index_for_hash(self.mkid(l)) != i:
                 raise Violation("index-for-hash", "index_for_hash(%r)=%d" % (l, i), repr(bc.index_for_hash(self.mkid(l))))
@@ -254,7 +276,7 @@ class Histories(Driver):
     def execute(self, unit):
         n, nm, walph, nl, nr = self.plan[unit["plan"]][:5]
         osp = len(self.plan[unit["plan"]]) > 5
-        r = Runner(unit["parents"], unit["weights"])
+        r = Runner(unit["parents"], unit["weights"]).decoy()
         # decoy: a second BlockChain alive in this process, fed a fixed history; must stay unaffected
         decoy = Runner([ANCHOR] + list(range(1, n)), [1] * n)
         decoy.start()
@@ -272,14 +294,81 @@ class Histories(Driver):
 
     def run(self, case):
         if case.get("ids") == "bytes":
-            return Runner(case["parents"], case["weights"], mkid=byte_id_f(case.get("salt", 0))).run(case["events"])
-        return Runner(case["parents"], case["weights"]).run(case["events"])
+            return Runner(case["parents"], case["weights"], mkid=byte_id_f(case.get("salt", 0))).decoy().run(case["events"])
+        return Runner(case["parents"], case["weights"]).decoy().run(case["events"])
 
     def nontrivial(self, cls):
         return cls != "plain"
 
     def selfcheck(self):
         return refchain.selfcheck()
+
+
+class Preload(Driver):
+    """a locked prefix that was restored with preload_locked_blocks, then deliveries (incl. re-delivery of preloaded headers)"""
+    id = "C15.preload"
+    rule = ("headers 1..k (k = 1, 2) form a line from the anchor and are restored with preload_locked_blocks; the other <= 2 (3) headers "
+            "have every parent among {new anchor, a preloaded header below it, the old anchor, a missing block, another header}, "
+            "weights {1,2}; every delivery order and batching with <= 1 re-delivery of ANY header, preloaded ones included; "
+            "same invariants as C15.histories")
+
+    def __init__(self, tier, seed):
+        Driver.__init__(self, tier, seed)
+        self.rest = 2 if tier == "quick" else 3
+        self.bound = dict(preloaded=[1, 2], other_headers=self.rest, weights=[1, 2], max_redeliveries=1)
+
+    def units(self):
+        for k in (1, 2):
+            for r in range(1, self.rest + 1):
+                rest = list(range(k + 1, k + r + 1))
+                choices = [[k] + list(range(0, k)) + [MISSING[1]] + [x for x in rest if x != l] for l in rest]
+                for par in itertools.product(*choices):
+                    parents = [ANCHOR] + list(range(1, k)) + list(par)
+                    ok = True
+                    for x in rest:
+                        seen, y = set(), x
+                        while y in rest:
+                            if y in seen:
+                                ok = False
+                                break
+                            seen.add(y)
+                            y = parents[y - 1]
+                    if not ok:
+                        continue
+                    for ws in itertools.product((1, 2), repeat=r):
+                        yield dict(k=k, parents=parents, weights=[1] * k + list(ws))
+
+    def histories(self, k, n):
+        rest = list(range(k + 1, n + 1))
+        for perm in itertools.permutations(rest):
+            for cuts in range(1 << (len(rest) - 1)):
+                batches, cur = [], [perm[0]]
+                for i in range(1, len(rest)):
+                    if cuts >> (i - 1) & 1:
+                        batches.append(cur)
+                        cur = []
+                    cur.append(perm[i])
+                batches.append(cur)
+                base = [["add", b] for b in batches]
+                yield base
+                for pos in range(0, len(base) + 1):
+                    done = sorted(set(range(1, k + 1)) | set(x for e in base[:pos] for x in e[1]))
+                    for x in done:
+                        yield base[:pos] + [["add", [x]]] + base[pos:]
+                        if pos < len(base):
+                            yield base[:pos] + [["add", [x] + base[pos][1]]] + base[pos + 1:]
+
+    def execute(self, unit):
+        k, n = unit["k"], len(unit["parents"])
+        r = Runner(unit["parents"], unit["weights"], preload=k).decoy()
+        for events in self.histories(k, n):
+            yield dict(parents=unit["parents"], weights=unit["weights"], events=events, preload=k), r.run(events)
+
+    def run(self, case):
+        return Runner(case["parents"], case["weights"], preload=case["preload"]).decoy().run(case["events"])
+
+    def nontrivial(self, cls):
+        return cls != "preload"
 
 
 def byte_id(l, salt=0):
@@ -298,20 +387,20 @@ class ByteIds(Histories):
 
     def __init__(self, tier, seed):
         Histories.__init__(self, tier, seed)
-        self.plan = [(3, 1, (1, 2), 1, 0)] if tier == "quick" else [(3, 2, (1, 2), 2, 1), (4, 1, (1, 2), 1, 0)]
+        self.plan = [(3, 1, (1, 2), 1, 1)] if tier == "quick" else [(3, 2, (1, 2), 2, 1), (4, 1, (1, 2), 1, 0), (4, 1, (1,), 1, 1)]
         self.bound = dict(plan=[dict(N=p[0], missing_roots=p[1], weights=list(p[2]), max_locks=p[3], max_redeliveries=p[4])
                                 for p in self.plan])
 
     def execute(self, unit):
         n, nm, walph, nl, nr = self.plan[unit["plan"]][:5]
         # different salts give different byte ids, hence different set iteration orders inside ChainFinder
-        for salt in ((0, 1) if self.tier == "quick" else (0, 1, 2, 3)):
-            r = Runner(unit["parents"], unit["weights"], mkid=byte_id_f(salt))
+        for salt in ((0, 1, 2) if self.tier == "quick" else (0, 1, 2, 3, 4, 5)):
+            r = Runner(unit["parents"], unit["weights"], mkid=byte_id_f(salt)).decoy()
             for batches in batchings(n):
                 for events in with_deviations(batches, n, nl, nr):
                     yield dict(parents=unit["parents"], weights=unit["weights"], events=events, ids="bytes", salt=salt), r.run(events)
 
 
-DRIVERS = [Histories, ByteIds]
+DRIVERS = [Histories, ByteIds, Preload]
 ASSUMPTIONS = ["headers are opaque objects with hash()/previous_block_hash/difficulty, as BlockChain uses them",
                "weights from the stated small alphabets; histories with more headers than the bound are not covered"]
